@@ -4,7 +4,7 @@ from ..oracles import c07
 MODELS = ["Aero", "Stress", "Wingbox", "Beam", "BeamTables"]
 STREAMS = [aero_streams.stream_points_and_mesh, aero_streams.stream_eval_mtx, aero_streams.stream_geometry_and_flow, stress.stream_vonmises, jac_wingbox.stream_wingbox_geometry]
 ORACLES = [c07.oracle_aero_mirror, c07.oracle_left_right, c07.oracle_struct_mirror, c07.oracle_wingbox_geometry_mirror, c07.oracle_geometry_full_span, c07.oracle_element_mirror, c07.oracle_inertial_loads_mirror]
-UNPROVED = ["the ELEMENT-level mirror covariance of the stiffness matrix is validated on the implementation (oracle element-matrices-mirror); from it the system-level covariance is proved (C07_structure_assembled_system_mirror_covariant); load-source mirror covariance: oracle only",
+UNPROVED = ["structure: the element-level mirror covariance of the stiffness matrix is now proved from the element model (C07_structure_element_matrices_mirror_covariant) and with it the system-level statement without hypothesis (C07_structure_mirrored_beam_gives_mirrored_forces); the oracle element-matrices-mirror still checks it on the implementation; load-source mirror covariance: oracle only",
             "the end-to-end statement 'all circulations / forces / coefficients of the mirrored configuration are the mirrored ones' is assembled from the proved building blocks by the oracle's mirror pairs, not as one theorem",
             "sweep/dihedral/taper/rotate on right-half meshes: refuted on the real code by the oracle (recorded findings); their Gallina models live under C13"]
 ASSUMPTIONS = ["five recorded findings: wingbox stress recovery end (F04) and Sweep / Dihedral / Taper / Rotate on right-half meshes (F05-*)"]
